@@ -73,6 +73,10 @@ class Loader(Generic[T]):
         return self._it.state_dict()  # type:ignore[union-attr]
 
 
+# Marks "no look-ahead item cached"; None is a legitimate item value.
+_NO_CACHED_ITEM = object()
+
+
 class LoaderIterator(BaseNode[T]):
     """An iterator class that wraps a root node and works with the Loader class.
 
@@ -94,7 +98,7 @@ class LoaderIterator(BaseNode[T]):
         super().__init__()
         self.loader = loader
         self.root = loader.root
-        self._cached_item = None
+        self._cached_item: Any = _NO_CACHED_ITEM
         self._cached_state_dict: Optional[Dict[str, Any]] = None
         self._num_yielded = 0
 
@@ -106,10 +110,10 @@ class LoaderIterator(BaseNode[T]):
         else:
             self.root.reset(None)
             self._num_yielded = 0
-        self._cached_item = None
+        self._cached_item = _NO_CACHED_ITEM
 
     def has_next(self) -> bool:
-        if self._cached_item is None:
+        if self._cached_item is _NO_CACHED_ITEM:
             try:
                 # Cache the current state dict
                 self._cached_state_dict = self.state_dict()
@@ -117,12 +121,12 @@ class LoaderIterator(BaseNode[T]):
                 self._cached_item = next(self)
             except StopIteration:
                 pass
-        return self._cached_item is not None
+        return self._cached_item is not _NO_CACHED_ITEM
 
     def next(self):
-        if self._cached_item is not None:
+        if self._cached_item is not _NO_CACHED_ITEM:
             item = self._cached_item
-            self._cached_item = None
+            self._cached_item = _NO_CACHED_ITEM
             self._cached_state_dict = None
         else:
             item = next(self.root)
